@@ -735,6 +735,30 @@ func FamCompLit(t Type, emit func(Gen)) {
 			If{Cond: Bin{Op: "<", L: a, R: b}, Then: []Stmt{Assign{Name: "q", Field: "y", X: b}}},
 			Return{X: []Expr{Field{X: p, Name: "x"}, Field{X: p, Name: "y"}, Field{X: q, Name: "x"}, Field{X: q, Name: "y"}}}}, []Type{t, t, t, t})
 	}
+	// two long array literals that agree in a long prefix and differ in the tail, read by a run-time index
+	if t.W >= 7 {
+		for _, n := range []int{33, 64} {
+			lt := t
+			lt.N = n
+			var pv, qv []int64
+			for i := 0; i < n; i++ {
+				v := int64(i*5+1) & m
+				pv = append(pv, v)
+				if i >= 32 {
+					v ^= 1
+				}
+				qv = append(qv, v)
+			}
+			mask := int64(63)
+			if n == 33 {
+				mask = 32
+			}
+			idx := Bin{Op: "&", L: b, R: UConst{T: t, V: mask}}
+			emit(Gen{"composite-literal-long-array", &Program{Funcs: []Func{mainFn(ab(t), []Type{t, t}, []Stmt{
+				Define{Name: "p", X: CompLit{T: lt, Vals: pv}}, Define{Name: "q", X: CompLit{T: lt, Vals: qv}},
+				Return{X: []Expr{Bin{Op: "+", L: Index{A: p, Idx: idx}, R: a}, Index{A: q, Idx: idx}}}})}}})
+		}
+	}
 	aLits := [][2][]int64{{{1 & m, 2 & m, 3 & m}, {4 & m, 5 & m, 6 & m}}, {{1 & m, 2 & m, 3 & m}, {1 & m, 2 & m, 3 & m}}, {{m, 0, m}, {0, m, 0}}}
 	for _, l := range aLits {
 		prog := func(body []Stmt, rts []Type) {
